@@ -157,6 +157,17 @@ def payloads_for(d: dict, rng: random.Random, n_random: int, pairwise: bool = Fa
     if any(f["kind"] in ("strlau", "strlz") for f in d["fields"]):
         for k in range(4):
             yield f"text{k}", build_payload(d, {}, rng)
+    for i, f in enumerate(d["fields"]):
+        if f.get("indirect") and f["off"] >= 0 and f["indOff"] >= 0:
+            # INDIRECT_LOOKUP: pairs (companion code, own code) the table knows, and neighbours it does not
+            from .gen_db import build
+            j = next(k for k, g in enumerate(d["fields"]) if g["off"] == f["indOff"] and g["len"] == f["indLen"])
+            keys = sorted(build()["indirect"][f["indirect"]])
+            picks = keys[:: max(1, len(keys) // 12)] + keys[-1:]
+            for key in picks:
+                a, b = (int(x) for x in key.split("_"))
+                yield f"{i+1}:pair{key}", build_payload(d, {j: a, i: b})
+                yield f"{i+1}:pair{key}+1", build_payload(d, {j: a, i: (b + 1) % (1 << f["len"])})
     if pairwise:
         idx = [i for i, f in enumerate(d["fields"]) if f["off"] >= 0 and f["len"] >= 0 and f["match"] == -1]
         for _ in range(min(40, len(idx) * 3)):
